@@ -45,7 +45,11 @@ func H_C15_json() {
 	// placeholder
 	var ph any
 	var phText string
-	switch vxrt.Choice("placeholder", 6) {
+	switch vxrt.Choice("placeholder", 8) {
+	case 6: // a string that reads like a number or a literal the target may hold
+		ph, phText = "7", `"7"`
+	case 7:
+		ph, phText = "true", `"true"`
 	case 4: // a string that happens to look like JSON is still a string
 		ph, phText = "[]", `"[]"`
 	case 5:
@@ -141,7 +145,11 @@ func H_C15_reuse() {
 		}
 		return "<Type:float64>"
 	}
-	switch vxrt.Choice("scenario", 5) {
+	switch vxrt.Choice("scenario", 6) {
+	case 5: // a nil placeholder masks with null, also at several index paths of one array
+		out, errs := match.Any("z.0", "z.1").Placeholder(nil).JSON([]byte(`{"z":[1,2,3],"a":4}`))
+		vxrt.Assert(len(errs) == 0, "C15:existing-path-no-error")
+		vxrt.Assert(vxCompactRef(string(out)) == `{"z":[null,null,3],"a":4}`, "C15:only-the-target-replaced")
 	case 4: // a Custom callback that masks with nil: the value at the path becomes null, so two
 		// documents differing only there come out identical
 		m := match.Custom("a", func(val any) (any, error) { return nil, nil })
